@@ -1075,6 +1075,10 @@ def _process_add_event_tick(
             # for its step to re-run; it must not capture further events.
             if wait_condition.resolved_event is not None or wait_condition.timed_out:
                 continue
+            # A targeted event (explicit step=..., or an internal retry) is only
+            # for the addressed step.
+            if tick.step_name is not None and tick.step_name != step_name:
+                continue
             is_match = type(tick.event) is wait_condition.waiting_for_event
             is_match = is_match and all(
                 getattr(tick.event, k, None) == v
